@@ -230,11 +230,26 @@ impl ContainerAttrs {
 pub struct Param {
     pub name: String,
     pub default: Option<TyExpr>,
+    /// `#[ts(concrete(name = ..))]`
+    #[serde(default)]
+    pub concrete: Option<TyExpr>,
 }
 
 #[derive(Clone, Debug, PartialEq, Eq, Hash, serde::Serialize, serde::Deserialize)]
 pub struct TypeDef {
     pub ident: String,
+    /// lifetime parameters (`'a`), only in TS-only modules
+    #[serde(default)]
+    pub lifetimes: Vec<String>,
+    /// const parameters (`N`), all `usize`, instantiated with 2; only in TS-only modules
+    #[serde(default)]
+    pub consts: Vec<String>,
+    /// const parameters are declared in front of the type parameters
+    #[serde(default)]
+    pub const_first: bool,
+    /// the const parameters carry a default (`const N: usize = 2`)
+    #[serde(default)]
+    pub const_default: bool,
     pub params: Vec<Param>,
     pub body: Body,
     pub attrs: ContainerAttrs,
@@ -290,6 +305,10 @@ impl TypeDef {
     }
     pub fn is_generic(&self) -> bool {
         !self.params.is_empty()
+    }
+    /// the type parameters the TypeScript declaration is generic over
+    pub fn ts_params(&self) -> Vec<&Param> {
+        self.params.iter().filter(|p| p.concrete.is_none()).collect()
     }
 }
 
